@@ -40,7 +40,11 @@ pub(crate) fn run() -> Result<(), Error> {
 
     let mut ps = ProcessState::init(env)?;
     let env2 = ps.env().clone();
-    let mut ptx = ProcessTransaction::new(&mut ps, TransactionBehavior::Deferred)?;
+    // is_dirty() can write (it forgets a generated target whose file is gone),
+    // and a deferred transaction cannot be upgraded once another command has
+    // committed: SQLite then fails at once with "database is locked" instead
+    // of waiting.  Nothing here is committed.
+    let mut ptx = ProcessTransaction::new(&mut ps, TransactionBehavior::Immediate)?;
     let cache: RefCell<HashSet<i64>> = RefCell::new(HashSet::new());
     let mut cb = DirtyCallbacksBuilder::new()
         .is_checked(|f, _| cache.borrow().contains(&f.id()))
